@@ -74,7 +74,16 @@ def install(reg):
     @reg.model('pyfile.__enter__')
     def _enter(eng, st, args, kw, node): return [(st, args[0])]
     @reg.model('pyfile.__exit__', 'pyfile.close')
-    def _exit(eng, st, args, kw, node): return [(st, mk_bool(False))]
+    def _exit(eng, st, args, kw, node):
+        out = []
+        if getattr(reg, 'fs_close_may_fail', False) and fail():
+            # flushing the buffered tail fails (ENOSPC, EIO): the file keeps some unknown part of what was written
+            x = st.fork(); p = eng.getfield(x, args[0], 'path').z
+            set_co(x, z3.Store(co(x), p, fresh_z(BYTES, 'torn')))
+            crash(eng, x, 'failed-close', node)
+            out.append(eng.raise_(x, 'OSError', 'close fails at %s' % eng.loc(node)))
+        out.append((st, mk_bool(False)))
+        return out
     @reg.model('pyfile.flush')
     def _flush(eng, st, args, kw, node): return [(st, mk_none())]
     @reg.model('pyfile.fileno')
